@@ -427,3 +427,22 @@ def c08_accumulative(tier, seed):
         if col.full():
             break
     return col.result(bound='<=3 nodes, instants 0..4, histories <=4 calls')
+
+
+# ---------------------------------------------------------------------------------------------- verifier self-test
+
+def engine_differential(tier, seed):
+    """not a property of dynetx but of the verifier: the symbolic executor, run on concrete inputs, must end in the same heap as
+    CPython running the real add_interaction (pyvc/differential.py).  A mismatch is reported as a violation of the check's own
+    soundness (the proofs of this run are not to be believed)."""
+    from pyvc.differential import kernel_differential
+    st = kernel_differential(60 if tier == 'quick' else 1500, seed + 5)
+    col = Collector('verifier self-test: seeded random histories (both classes, both modes, <=4 calls, instants -2..6, rejected calls and '
+                    'missing t included); every call is executed by the symbolic executor on the concrete abstraction of the real graph and by '
+                    'CPython, the two final heaps are compared component by component; non-trivial = every call compared')
+    col.evaluations = st['calls']
+    col.distinct = set(range(st['calls'] - st['undecided']))
+    col.samples = [{'calls_compared': st['calls'], 'rejections_among_them': st['raise'], 'outside_the_subset': st['undecided']}]
+    for m in st['mismatches']:
+        col.violation('pyvc.executor_differs_from_cpython', m['class'], m['edge_removal'], [['add'] + c for c in m['history']], '; '.join(m['differences']))
+    return col.result(bound='<=4 calls per history, 3 nodes, instants -2..6')
